@@ -53,14 +53,15 @@ import (
 func TestVerifSimDeliver(t *testing.T) {
 	simkit.Main(t, simkit.Engine{
 		Name:  "deliversim",
-		Props: map[string]simkit.PropFunc{"C31": runDeliverSim},
+		Props: map[string]simkit.PropFunc{"C31": runDeliverSim, "C41deliver": runDeliverSim},
 		Real: []string{"channelappend recipient dispatch (recipient.go: normalisation, authority resolution and grouping, bounded plan packing, paged / snapshot / message-scoped recipient selection, plan enqueue)",
 			"delivery.Runtime on every node (admission, channel-sharded ordered plan queue, plan workers, presence/offline/owner grouping, bounded owner concurrency, exact-route retry loop, PushOwner owner-local reserve-write-finish transaction, Stop/Quiesce/Start lifecycle)",
 			"delivery.AckTracker behind the runtime", "goroutine registry", "timers via synctest fake clock"},
 		Stub: []string{"post-commit caller (one sequential dispatcher per channel)", "subscriber source", "recipient authority resolver",
 			"presence resolver", "node-to-node owner push transport (in-process call into the target runtime's PushOwner under the caller's context)", "session writer and session directory", "offline observer", "clients sending RECVACK / closing sessions"},
 		Rule: "One run = 1-3 nodes, 1-4 channels each dispatched in sequence order by one source node, 3-12 messages whose recipient rows (1 to ~2.5 x the recipient batch size, duplicates included) are split by the real producer into plans, tape-chosen port outcomes and lifecycle actions. " +
-			"Non-trivial = at least one accepted session write AND (at least one fault fired OR two plans were in flight at the same time OR a message was split into several plans).",
+			"Non-trivial = at least one accepted session write AND (at least one fault fired OR two plans were in flight at the same time OR a message was split into several plans). " +
+			"For C41deliver the same world is biased to stop scenarios (queues of 1-2 plans, Stop with a generous or an expiring deadline and repeated Stop as ordinary actions, dispatches arriving after a stop began, restart); non-trivial = some Stop began while admitted plans were queued or running.",
 		Assumptions: []string{"testing/synctest fake clock and quiescence semantics (go1.26.8)",
 			"an owner push that the caller abandoned (deadline, cancellation) never reaches the owner later: late delivery of timed-out RPCs, which would legitimately reorder, is not modelled",
 			"each channel has one dispatching node that handles its committed messages one after another",
@@ -184,6 +185,14 @@ func dsDrawCfg(r *simkit.Run) dsCfg {
 			c.AckTTL = 2 * time.Second
 		}
 	}
+	if r.Property == "C41deliver" {
+		// stop scenarios are the workload here: small queues so that plans are
+		// queued and enqueues block when a stop begins, lifecycle always on
+		c.Queue = 1 + tp.Intn(2)
+		c.Workers = 1 + tp.Intn(2)
+		c.FLifecycle = true
+		c.FChurn = false
+	}
 	return c
 }
 
@@ -298,6 +307,12 @@ type dsPlan struct {
 	endedObserved bool
 	deadline      bool
 	relaxed       bool
+	// cancelSeen: a port call of this plan saw its context cancelled while waiting
+	cancelSeen bool
+	// invokedState: harness view of the node (0 stopped, 1 open, 2 closing, 3
+	// quiescing) at the step the enqueue call was made; invokedGen its generation
+	invokedState int
+	invokedGen   int
 }
 
 func (p *dsPlan) name() string { return fmt.Sprintf("m%d#%d", p.msg.idx, p.ord) }
@@ -335,6 +350,8 @@ type dsNode struct {
 	acceptedTotal int
 	results       map[rd.ObservationResult]int
 	genRelax      bool
+	// expiredStop[gen]: a Stop call of that generation returned its caller's deadline error
+	expiredStop map[int]bool
 }
 
 type dsChan struct {
@@ -382,6 +399,11 @@ type dsWorld struct {
 	// remaining fault budgets (a run stays mostly about delivering plans)
 	lifeLeft  int
 	churnLeft int
+	// c41: the run checks C41deliver (stop semantics) instead of C31
+	c41     bool
+	foreign map[string]bool
+	// stopOverWork: some Stop began while admitted plans were queued or running
+	stopOverWork bool
 }
 
 // ---- observer -----------------------------------------------------------------
@@ -676,6 +698,8 @@ func (s *dsPresence) EndpointsByTargets(ctx context.Context, targets []onlinedel
 		return c.answer
 	case dsPresPanic:
 		panic("sim: presence resolver panic")
+	case dsCtx:
+		w.noteCtxEnd(p, ctx)
 	}
 	return fail()
 }
@@ -718,12 +742,16 @@ func (s *dsRemote) PushOwner(ctx context.Context, push onlinedelivery.OwnerPush)
 	case dsReqDeliver:
 	case dsReqHold:
 		<-ctx.Done()
+		w.noteCtxEnd(p, ctx)
 		w.justify(p, routes)
 		return onlinedelivery.OwnerPushResult{}, ctx.Err()
 	case dsReqPanic:
 		w.justify(p, routes)
 		panic("sim: remote owner pusher panic")
 	default:
+		if d == dsCtx {
+			w.noteCtxEnd(p, ctx)
+		}
 		w.justify(p, routes)
 		return onlinedelivery.OwnerPushResult{}, errDsNet
 	}
@@ -745,6 +773,9 @@ func (s *dsRemote) PushOwner(ctx context.Context, push onlinedelivery.OwnerPush)
 	c2 := &dsCall{kind: "rsp", node: push.OwnerNodeID, to: s.n.id, plan: p, routes: routes}
 	d2 := w.w.ParkCtx(ctx.Done(), fmt.Sprintf("RSP n%d->n%d %s %s => %s", push.OwnerNodeID, s.n.id, p.name(), dsRouteKeys(routes), sum), c2, dsCtx)
 	if d2 != dsRspDeliver || err != nil {
+		if d2 == dsCtx {
+			w.noteCtxEnd(p, ctx)
+		}
 		w.mu.Lock()
 		for _, r := range routes {
 			w.acct(p, r).lostResp++
@@ -801,10 +832,12 @@ func (s *dsWriter) WriteSession(ctx context.Context, write rd.LocalSessionWrite)
 		return rd.SessionWriteResult{Disposition: rd.SessionWriteRetryable, Err: errDsWrite}
 	case dsWHold:
 		<-ctx.Done()
+		w.noteCtxEnd(p, ctx)
 		return rd.SessionWriteResult{Disposition: rd.SessionWriteRetryable, Err: ctx.Err()}
 	case dsWPanic:
 		panic("sim: session writer panic")
 	case dsCtx:
+		w.noteCtxEnd(p, ctx)
 		if local {
 			w.justify(p, one)
 		}
@@ -841,8 +874,11 @@ func (s *dsOffline) ObserveOfflineRecipients(ctx context.Context, ev rd.OfflineR
 	w.mu.Unlock()
 	sort.Strings(uids)
 	c := &dsCall{kind: "offl", node: s.n.id, plan: p}
-	if d := w.w.ParkCtx(ctx.Done(), fmt.Sprintf("OFFL n%d %s %v", s.n.id, p.name(), uids), c, dsCtx); d == dsOffPanic {
+	switch d := w.w.ParkCtx(ctx.Done(), fmt.Sprintf("OFFL n%d %s %v", s.n.id, p.name(), uids), c, dsCtx); d {
+	case dsOffPanic:
 		panic("sim: offline observer panic")
+	case dsCtx:
+		w.noteCtxEnd(p, ctx)
 	}
 }
 
@@ -860,6 +896,11 @@ func runDeliverSim(t *testing.T, r *simkit.Run) {
 		defer w.teardown()
 		w.lifeLeft = 1 + r.Tape.Intn(4)
 		w.churnLeft = 1 + r.Tape.Intn(5)
+		w.foreign = map[string]bool{}
+		if r.Property == "C41deliver" {
+			w.c41 = true
+			w.lifeLeft += 2
+		}
 		w.build()
 		if r.InfraErr != "" {
 			return
@@ -887,6 +928,9 @@ func runDeliverSim(t *testing.T, r *simkit.Run) {
 			nf += v
 		}
 		r.Nontrivial = w.accepted > 0 && (nf > 0 || w.overlap || w.split)
+		if w.c41 {
+			r.Nontrivial = w.stopOverWork
+		}
 		if dsDumpTrace {
 			for _, l := range r.Trace() {
 				fmt.Println(l)
@@ -899,7 +943,7 @@ func (w *dsWorld) build() {
 	c := w.cfg
 	tp := w.r.Tape
 	for i := 1; i <= c.N; i++ {
-		n := &dsNode{id: uint64(i), results: map[rd.ObservationResult]int{}}
+		n := &dsNode{id: uint64(i), results: map[rd.ObservationResult]int{}, expiredStop: map[int]bool{}}
 		opts := rd.RuntimeOptions{
 			LocalNodeID: n.id, Presence: &dsPresence{w, n}, RemoteOwnerPusher: &dsRemote{w, n}, SessionWriter: &dsWriter{w, n},
 			// durations carry odd nanosecond offsets so that no two timers of the
@@ -1105,6 +1149,18 @@ func (w *dsWorld) startDispatch(ch *dsChan, m *dsMsg) {
 func (w *dsWorld) startLife(n *dsNode, kind string, timeout time.Duration) {
 	op := &dsOp{kind: kind, node: n, timeout: timeout}
 	n.lifeOp = op
+	if kind == "stop" {
+		w.mu.Lock()
+		for _, p := range w.allPlans() {
+			if p.src == n.id && p.gen == n.gen && p.enq == 2 && !p.ended {
+				w.stopOverWork = true
+			}
+		}
+		w.mu.Unlock()
+		if w.stopOverWork {
+			w.r.Probe("c41.stop_began_with_admitted_work_pending")
+		}
+	}
 	if n.state == 1 {
 		if kind == "stop" {
 			n.state = 2
@@ -1155,8 +1211,104 @@ func (w *dsWorld) dropAcksOf(node uint64, sid uint64, uid string) {
 
 // ---- quiescent-state processing ----------------------------------------------
 
+// dsC41Classes are the violation classes of C41deliver (the delivery-runtime
+// part of "stopping the send pipeline never drops accepted sends").
+var dsC41Classes = map[string]bool{
+	"admitted-after-stop": true, "admitted-without-terminal": true,
+	"work-cancelled-by-expired-stop": true, "work-discarded-by-expired-stop": true, "work-cancelled": true,
+	"stop-wrong-error": true,
+}
+
+// dsSharedClasses are lifecycle claims reported under both properties.
+var dsSharedClasses = map[string]bool{"stop-incomplete": true, "quiesce-incomplete": true, "lifecycle": true, "plan-executed-twice": true}
+
+// fail reports a violation of the property being checked. Classes of the other
+// property served by this engine are only counted (they are reported by that
+// property's own check) and do not end the run.
 func (w *dsWorld) fail(class, sig, detail string) {
+	if !dsSharedClasses[class] && w.c41 != dsC41Classes[class] {
+		if !w.foreign[class] {
+			w.foreign[class] = true
+			w.r.Probe("other_property_class:" + class)
+		}
+		return
+	}
 	w.r.FailSig(class, sig, detail, nil)
+}
+
+func (w *dsWorld) over() bool { return w.r.Failed() }
+
+// noteCtxEnd records that a context handed to a port call ended while the call
+// was waiting: by cancellation (nobody but the runtime's generation cancel can
+// do that while the plan is in flight) or by the plan's own deadline.
+func (w *dsWorld) noteCtxEnd(p *dsPlan, ctx context.Context) {
+	if p == nil || !errors.Is(ctx.Err(), context.Canceled) {
+		return
+	}
+	w.mu.Lock()
+	p.cancelSeen = true
+	w.mu.Unlock()
+}
+
+// c41Stuck: the benign drain did not bring every admitted plan to a terminal
+// outcome although no port call is parked any more (bounded liveness).
+func (w *dsWorld) c41Stuck() {
+	if !w.c41 || w.w.NumPending() > 0 {
+		return
+	}
+	w.mu.Lock()
+	defer w.mu.Unlock()
+	for _, p := range w.allPlans() {
+		if w.planPendingLocked(p) && p.enq == 2 {
+			w.fail("admitted-without-terminal", "stuck", fmt.Sprintf("plan %s was admitted on n%d but neither finished nor was reported failed after every port call had been released and 20 s of drain", p.name(), p.src))
+			return
+		}
+	}
+}
+
+// c41FinalLocked evaluates clauses (b) and (c) of C41 at the delivery runtime
+// once everything has drained.
+func (w *dsWorld) c41FinalLocked() {
+	if !w.c41 {
+		return
+	}
+	// (b) exactly one terminal observation per admitted plan
+	for _, id := range w.nodeIDs {
+		n := w.nodes[id]
+		if n.terminals < n.acceptedTotal {
+			missing := []string{}
+			for _, p := range w.allPlans() {
+				if p.src == id && p.enq == 2 && p.presCalls == 0 {
+					missing = append(missing, p.name())
+				}
+			}
+			w.fail("admitted-without-terminal", "count", fmt.Sprintf("n%d admitted %d plans but reported only %d terminal outcomes after the drain; admitted plans that never reached presence: %v", id, n.acceptedTotal, n.terminals, missing))
+			return
+		}
+		w.r.Probe("c41.terminals_match_admitted")
+	}
+	// (c) a Stop whose deadline expired neither cancels nor discards admitted work
+	for _, p := range w.allPlans() {
+		if p.enq != 2 {
+			continue
+		}
+		n := w.nodes[p.src]
+		expired := n.expiredStop[p.gen]
+		switch {
+		case p.cancelSeen && expired:
+			w.fail("work-cancelled-by-expired-stop", "run-context-cancelled", fmt.Sprintf("plan %s (admitted on n%d, generation %d) had the context of an in-flight port call cancelled after a Stop whose deadline expired", p.name(), p.src, p.gen))
+		case p.cancelSeen:
+			w.fail("work-cancelled", "no-expired-stop", fmt.Sprintf("plan %s (admitted on n%d) had the context of an in-flight port call cancelled although no Stop deadline expired in its generation", p.name(), p.src))
+		case p.presCalls == 0 && expired:
+			w.fail("work-discarded-by-expired-stop", "queued-plan-not-processed", fmt.Sprintf("plan %s was admitted on n%d (generation %d) and still queued when a Stop deadline expired; it was never processed (terminal outcome without any delivery work)", p.name(), p.src, p.gen))
+		case p.presCalls == 0:
+			w.fail("admitted-without-terminal", "never-ran", fmt.Sprintf("plan %s was admitted on n%d but never processed", p.name(), p.src))
+		default:
+			continue
+		}
+		return
+	}
+	w.r.Probe("c41.final_checked")
 }
 
 func (w *dsWorld) allPlans() []*dsPlan {
@@ -1170,7 +1322,7 @@ func (w *dsWorld) allPlans() []*dsPlan {
 // sync runs at every quiescent state: completions, plan ends, arrivals, and
 // all counter-based checks.
 func (w *dsWorld) sync() {
-	if w.r.Failed() {
+	if w.over() {
 		return
 	}
 	w.mu.Lock()
@@ -1189,10 +1341,22 @@ func (w *dsWorld) sync() {
 			p.enqLogged = true
 			w.r.Logf("  enqueue %s -> %v", p.name(), p.err)
 			switch {
+			case p.err == nil && p.invokedState != 1:
+				w.fail("admitted-after-stop", map[int]string{0: "stopped", 2: "stopping", 3: "quiescing"}[p.invokedState],
+					fmt.Sprintf("EnqueueRecipientDeliveryPlan of %s on n%d returned nil although the call was made after %s (generation %d, not restarted since)",
+						p.name(), p.src, map[int]string{0: "Stop had completed", 2: "Stop had begun", 3: "Quiesce had begun"}[p.invokedState], p.invokedGen))
+				if w.over() {
+					return
+				}
 			case p.err == nil:
 				w.r.Probe("plan_accepted")
 			case errors.Is(p.err, rd.ErrRuntimeClosed):
 				w.r.Probe("enqueue_rejected_closed")
+				if p.invokedState == 1 {
+					w.r.Probe("c41.enqueue_in_flight_when_stop_began_rejected")
+				} else {
+					w.r.Probe("c41.enqueue_after_stop_rejected")
+				}
 			case errors.Is(p.err, context.DeadlineExceeded), errors.Is(p.err, context.Canceled):
 				w.r.Probe("enqueue_timed_out_on_full_queue")
 			default:
@@ -1240,7 +1404,7 @@ func (w *dsWorld) sync() {
 	}
 	for _, m := range w.msgs {
 		w.checkMsgLocked(m)
-		if w.r.Failed() {
+		if w.over() {
 			return
 		}
 	}
@@ -1297,7 +1461,7 @@ func (w *dsWorld) checkMsgLocked(m *dsMsg) {
 	}
 	for _, p := range m.plans {
 		w.checkPlanLocked(p, mtag)
-		if w.r.Failed() {
+		if w.over() {
 			return
 		}
 	}
@@ -1348,7 +1512,7 @@ func (w *dsWorld) checkPlanLocked(p *dsPlan, mtag string) {
 		case a.attempts > a.mult*w.cfg.RetryMax:
 			w.fail("retry-unbounded", "", fmt.Sprintf("%s: route %s pushed %d times, resolved %d time(s), attempt limit %d", tag, k, a.attempts, a.mult, w.cfg.RetryMax))
 		}
-		if w.r.Failed() {
+		if w.over() {
 			return
 		}
 	}
@@ -1394,6 +1558,19 @@ func (w *dsWorld) onOpDone(op *dsOp) {
 		if op.err != nil {
 			// graceful budget exhausted: the runtime cancels accepted work
 			w.r.Probe("stop_timed_out")
+			if !errors.Is(op.err, context.DeadlineExceeded) {
+				w.fail("stop-wrong-error", "", fmt.Sprintf("Stop on n%d failed with %v, which is not its caller's deadline error", n.id, op.err))
+			}
+			n.expiredStop[n.gen] = true
+			inFlight := false
+			for _, p := range w.allPlans() {
+				if p.src == n.id && p.gen == n.gen && p.enq == 2 && !p.ended {
+					inFlight = true
+				}
+			}
+			if inFlight {
+				w.r.Probe("c41.stop_expired_with_admitted_work_pending")
+			}
 			n.genRelax = true
 			for _, p := range w.allPlans() {
 				if p.src == n.id && p.gen == n.gen && !p.endedObserved {
@@ -1593,7 +1770,7 @@ func (w *dsWorld) quiet() bool {
 }
 
 func (w *dsWorld) collect() []simkit.Action {
-	if w.r.Failed() {
+	if w.over() {
 		return nil
 	}
 	c := w.cfg
@@ -1614,9 +1791,15 @@ func (w *dsWorld) collect() []simkit.Action {
 			}
 		case "enq":
 			n := w.nodes[call.node]
-			add(0, "enqueue "+pk.Key, 20, func() { call.plan.gen = n.gen; w.w.Release(pk, dsEnqGo) })
+			invoke := func() {
+				call.plan.gen, call.plan.invokedGen, call.plan.invokedState = n.gen, n.gen, n.state
+				if n.state != 1 {
+					w.r.Probe("c41.enqueue_invoked_after_stop_began")
+				}
+			}
+			add(0, "enqueue "+pk.Key, 20, func() { invoke(); w.w.Release(pk, dsEnqGo) })
 			if faults && c.FEnqTO {
-				add(5, "enqueue-short "+pk.Key, 2, func() { call.plan.gen = n.gen; w.r.Fault("enqueue_short_deadline"); w.w.Release(pk, dsEnqShort) })
+				add(5, "enqueue-short "+pk.Key, 2, func() { invoke(); w.r.Fault("enqueue_short_deadline"); w.w.Release(pk, dsEnqShort) })
 			}
 		case "pres":
 			add(0, "answer "+pk.Key, 40, func() { w.answerPresence(call, faults); w.w.Release(pk, dsPresAnswer) })
@@ -1694,6 +1877,9 @@ func (w *dsWorld) collect() []simkit.Action {
 			switch {
 			case ch.src.state == 1:
 				add(1, fmt.Sprintf("dispatch %s", ch.id), 12, func() { w.startDispatch(ch, w.newMessage(ch, faults)) })
+			case w.c41:
+				// clause (a) workload: sends arriving after the stop began
+				add(2, fmt.Sprintf("dispatch-closed %s", ch.id), 4, func() { w.r.Probe("c41.dispatch_while_not_open"); w.startDispatch(ch, w.newMessage(ch, faults)) })
 			case faults && c.FLifecycle:
 				add(6, fmt.Sprintf("dispatch-closed %s", ch.id), 1, func() { w.r.Fault("dispatch_while_not_open"); w.startDispatch(ch, w.newMessage(ch, faults)) })
 			}
@@ -1709,7 +1895,14 @@ func (w *dsWorld) collect() []simkit.Action {
 		case 0:
 			add(4, fmt.Sprintf("start n%d", id), 8, func() { w.doStart(n) })
 		case 1:
-			if faults && c.FLifecycle && w.lifeLeft > 0 {
+			if w.c41 && w.lifeLeft > 0 {
+				// stopping is the workload of C41deliver, the expiring deadline its fault
+				add(2, fmt.Sprintf("stop n%d", id), 5, func() { w.lifeLeft--; w.r.Probe("c41.stop_generous"); w.startLife(n, "stop", 20*time.Second) })
+				if faults {
+					add(5, fmt.Sprintf("stop-short n%d", id), 5, func() { w.lifeLeft--; w.r.Fault("stop_short_budget"); w.startLife(n, "stop", 3*time.Millisecond) })
+					add(6, fmt.Sprintf("quiesce n%d", id), 1, func() { w.lifeLeft--; w.r.Fault("quiesce"); w.startLife(n, "quiesce", 20*time.Second) })
+				}
+			} else if faults && c.FLifecycle && w.lifeLeft > 0 {
 				add(6, fmt.Sprintf("stop n%d", id), 2, func() { w.lifeLeft--; w.r.Fault("stop"); w.startLife(n, "stop", 20*time.Second) })
 				add(6, fmt.Sprintf("stop-short n%d", id), 1, func() { w.lifeLeft--; w.r.Fault("stop_short_budget"); w.startLife(n, "stop", 3*time.Millisecond) })
 				add(6, fmt.Sprintf("quiesce n%d", id), 1, func() { w.lifeLeft--; w.r.Fault("quiesce"); w.startLife(n, "quiesce", 20*time.Second) })
@@ -1719,6 +1912,9 @@ func (w *dsWorld) collect() []simkit.Action {
 			add(4, fmt.Sprintf("stop n%d", id), 4, func() { w.startLife(n, "stop", 20*time.Second) })
 			if n.state == 3 {
 				add(4, fmt.Sprintf("quiesce n%d", id), 2, func() { w.startLife(n, "quiesce", 50*time.Millisecond) })
+			}
+			if w.c41 && faults && n.state == 2 && w.lifeLeft > 0 {
+				add(5, fmt.Sprintf("stop-short n%d", id), 2, func() { w.lifeLeft--; w.r.Fault("stop_short_budget_repeated"); w.startLife(n, "stop", 3*time.Millisecond) })
 			}
 			if faults && w.lifeLeft > 0 {
 				add(6, fmt.Sprintf("start n%d", id), 1, func() { w.lifeLeft--; w.doStart(n) })
@@ -1800,7 +1996,7 @@ func (w *dsWorld) finalPhase() {
 		for i := 0; i < budget; i++ {
 			simkit.Wait()
 			w.sync()
-			if r.Failed() {
+			if w.over() {
 				return false
 			}
 			acts := w.collect()
@@ -1830,8 +2026,9 @@ func (w *dsWorld) finalPhase() {
 		return w.plansSettled()
 	}
 	if !settle(4000) {
-		if !r.Failed() {
+		if !w.over() {
 			r.Probe("final_drain_budget_exhausted")
+			w.c41Stuck()
 		}
 		return
 	}
@@ -1845,22 +2042,29 @@ func (w *dsWorld) finalPhase() {
 			w.sweepAcks(n)
 		}
 		w.startLife(n, "stop", 20*time.Second)
-		if !settle(2000) || r.Failed() {
+		if !settle(2000) || w.over() {
+			if !w.over() {
+				w.c41Stuck()
+			}
 			return
 		}
 	}
 	simkit.Wait()
 	w.sync()
-	if r.Failed() {
+	if w.over() {
 		return
 	}
 	w.mu.Lock()
 	defer w.mu.Unlock()
 	for _, m := range w.msgs {
 		w.finalCheckLocked(m)
-		if r.Failed() {
+		if w.over() {
 			return
 		}
+	}
+	w.c41FinalLocked()
+	if w.over() {
+		return
 	}
 	for _, id := range w.nodeIDs {
 		n := w.nodes[id]
